@@ -90,10 +90,8 @@ def _validate_name(name, settings, exception_cls=AttributeError):
     if name.startswith('_'):
         raise exception_cls('Cannot access ' + name)
     whitelist = settings['whitelist']
-    if whitelist:
-        for entry in whitelist:
-            if _match_name_to_entry(name, entry):
-                return
+    if whitelist and not any(
+            _match_name_to_entry(name, entry) for entry in whitelist):
         raise exception_cls('Cannot access ' + name)
     blacklist = settings['blacklist']
     if blacklist:
